@@ -258,3 +258,30 @@ def modify_classes_decision():
         if f({r for r, _ in pick}, escape=True) != {e for _, e in pick}:
             bad.append({"items": [r for r, _ in pick], "what": "not item-wise"})
     return {"cases": n, "bad": bad[:10]}
+
+
+def shorthand_decision():
+    """__verbose_to_shorthand only tests whether six particular items ('a-z', 'A-Z', '0-9', '_', ' ', TAB-CR range) are in the set and
+    swaps them for \\w / \\d / \\s (side condition read off the AST by the caller): every subset of those six, with and without
+    another item, both values of simplify_word - the result must list the same characters (as `re` reads them, ASCII range; the
+    Unicode surplus of the shorthands is the caveat the properties state)"""
+    import itertools, re
+    import pregex.core.classes as cl
+    f = getattr(cl, "__Class")._Class__verbose_to_shorthand
+    six = ["a-z", "A-Z", "0-9", "_", " ", "\t-\r"]
+    uni = "".join(chr(c) for c in range(0, 128))
+
+    def den(items):
+        items = sorted(items)
+        return set(re.findall("[" + "".join(items) + "]", uni, re.A)) if items else set()
+    bad, n = [], 0
+    for k in range(len(six) + 1):
+        for sub in itertools.combinations(six, k):
+            for extra in ((), ("x",), ("!-\\/",)):
+                for sw in (False, True):
+                    n += 1
+                    src = set(sub) | set(extra)
+                    got = f(set(src), sw)
+                    if den(got) != den(src):
+                        bad.append({"items": sorted(src), "simplify_word": sw, "got": sorted(got)})
+    return {"cases": n, "bad": bad[:10]}
